@@ -447,10 +447,11 @@ func (g G) planC07() *Plan {
 		if (m.Kind == "attrq" || m.Binding == "post") && g.chance(lab+".short", 30) {
 			m.BodyFault, m.BodyOff = g.pick(lab+".pieces", "short", "split"), g.intn(lab+".shortk", 4000)
 		}
-		// RelayState is opaque to the IdP: return URLs, key=value pairs, base64 padding, blanks
+		// RelayState is opaque to the IdP: return URLs, key=value pairs, base64 padding, blanks (also leading / trailing ones, which a
+		// receiver that trims form values would no longer verify)
 		if (m.Kind == "sso" || m.Kind == "slo") && g.chance(lab+".relay", 35) {
 			m.HasRelay = true
-			m.RelayState = g.pick(lab+".relayv", "https://sp.example/return?a=1&b=2", "k=v;x=y", "a+b@c,d$e", "dGVzdA==", "two words", "tab=2&lang=de", "ümlaut/é", "a:b", "~._-!*'()")
+			m.RelayState = g.pick(lab+".relayv", "https://sp.example/return?a=1&b=2", "k=v;x=y", "a+b@c,d$e", "dGVzdA==", "two words", "tab=2&lang=de", "ümlaut/é", "a:b", "~._-!*'()", "trailing blank ", " leading blank", "ends with a line break\r\n", "\ttabs\t", "  ")
 		}
 	}
 	return p
